@@ -91,6 +91,31 @@ def _rec_transform(self, name, args, out):
          'out': _arr(np.asarray(out)[idx])})
 
 
+def _rec_tuples(self, name, args, out):
+  if not type(self).__module__.startswith('metric_learn'):
+    return
+  T = np.asarray(args[0])
+  if T.dtype.kind not in 'fi' or T.ndim != 3 or T.shape[1] not in (3, 4) or T.shape[0] == 0 or not np.isfinite(T.astype(float)).all():
+    return
+  L = np.asarray(self.components_)
+  if L.dtype.kind != 'f' or not np.isfinite(L).all() or T.shape[2] != L.shape[1]:
+    return
+  idx = np.linspace(0, len(T) - 1, min(_MAXROWS, len(T))).astype(int)
+  o = np.asarray(out)[idx]
+  _emit({'ev': 'CallTuples', 'method': name, 'cls': type(self).__name__, 'L': _arr(L), 'tuples': _arr(T[idx]),
+         'out': [int(v) for v in o] if name == 'predict' else _arr(o)})
+
+
+def _rec_matrix(self, name, args, out):
+  if not type(self).__module__.startswith('metric_learn'):
+    return
+  L = np.asarray(self.components_)
+  M = np.asarray(out)
+  if L.dtype.kind != 'f' or L.ndim != 2 or not np.isfinite(L).all() or L.shape[1] > 12:
+    return
+  _emit({'ev': 'CallMatrix', 'method': name, 'cls': type(self).__name__, 'L': _arr(L), 'M': _arr(M)})
+
+
 def _install():
   from metric_learn import base_metric as bm
   for m in ('pair_distance', 'pair_score', 'score_pairs'):
@@ -98,6 +123,10 @@ def _install():
   _wrap(bm.MahalanobisMixin, 'transform', _rec_transform)
   _wrap(bm._PairsClassifierMixin, 'decision_function', _rec_pairs)
   _wrap(bm._PairsClassifierMixin, 'predict', _rec_pairs)
+  _wrap(bm.MahalanobisMixin, 'get_mahalanobis_matrix', _rec_matrix)
+  for c in (bm._TripletsClassifierMixin, bm._QuadrupletsClassifierMixin):
+    _wrap(c, 'decision_function', _rec_tuples)
+    _wrap(c, 'predict', _rec_tuples)
 
 
 if _OUT is not None:
